@@ -20,6 +20,7 @@ from ..sleep import BeforeSleepHook, SleeperFn, SleepFn
 from .context import _PolicyContext
 from .execution import (
     ExecutionContext,
+    admit,
     build_aborted_outcome,
     build_circuit_open_outcome,
     build_exception_outcome_no_retry,
@@ -222,11 +223,9 @@ class Policy:
 
         # Circuit breaker check
         if ctx.breaker is not None:
-            decision = ctx.breaker.allow()
-            ctx.emit_breaker_event(decision.event, decision.state)
+            decision = admit(ctx)
             if not decision.allowed:
                 return build_circuit_open_outcome(ctx, decision.state.value)
-            ctx.admitted = True
 
         try:
             # Delegate to retry if configured
